@@ -68,7 +68,7 @@ Sig(r) ==
   LET f == r.f IN
   [ n |-> Len(f), cw |-> r.cw,
     poleN |-> PoleStatus(f, 1), poleS |-> PoleStatus(f, -1),
-    hemisphere |-> Hemisphere(f), encloses_pole |-> EnclosesPole(f), pole_claim |-> PoleClaim(r),
+    hemisphere |-> Hemisphere(f), one_hemisphere |-> Hemisphere(f) # "Straddles", encloses_pole |-> EnclosesPole(f), pole_claim |-> PoleClaim(r),
     min_only_at_bulge_starters |-> OnlyBulgeStarters(f, r.cw, AttainMin(f)),
     max_only_at_bulge_starters |-> OnlyBulgeStarters(f, r.cw, AttainMax(f)),
     corner_on_ref_meridian |-> CornerOnRefMeridian(f),
